@@ -11,79 +11,8 @@ import tempfile
 MODS = ('utilities', 'lookups', 'hands', 'state', 'games', 'notation', 'analysis')
 
 
-class RenameLocals(ast.NodeTransformer):
-    """rename every local variable of every function (not parameters, not names used by nested defs/globals)"""
-
-    def visit_FunctionDef(self, node):
-        self.generic_visit(node)
-        params = {a.arg for a in node.args.posonlyargs + node.args.args + node.args.kwonlyargs}
-        if node.args.vararg:
-            params.add(node.args.vararg.arg)
-        if node.args.kwarg:
-            params.add(node.args.kwarg.arg)
-        nested_free = set()
-        for n in ast.walk(node):
-            if n is not node and isinstance(n, (ast.FunctionDef, ast.Lambda)):
-                for m in ast.walk(n):
-                    if isinstance(m, ast.Name):
-                        nested_free.add(m.id)
-            if isinstance(n, (ast.Nonlocal, ast.Global)):
-                nested_free |= set(n.names)
-        stored = set()
-        for n in ast.walk(node):
-            if isinstance(n, ast.Name) and isinstance(n.ctx, ast.Store):
-                stored.add(n.id)
-            if isinstance(n, ast.ExceptHandler) and n.name:
-                pass
-            if isinstance(n, ast.MatchAs) and n.name:
-                nested_free.add(n.name)
-            if isinstance(n, ast.MatchStar) and n.name:
-                nested_free.add(n.name)
-        # names of nested function defs stay
-        for n in ast.walk(node):
-            if n is not node and isinstance(n, ast.FunctionDef):
-                nested_free.add(n.name)
-        targets = {s for s in stored if s not in params and s not in nested_free and not s.startswith('__') and s != '_'}
-        if not targets:
-            return node
-
-        class R(ast.NodeTransformer):
-            def visit_Name(self, n):
-                if n.id in targets:
-                    return ast.copy_location(ast.Name(id=n.id + '_r', ctx=n.ctx), n)
-                return n
-
-            def visit_FunctionDef(self, n):
-                return n if n is not node else self.generic_visit(n)
-
-            def visit_Lambda(self, n):
-                return n
-        R().visit(node)
-        return node
-
-
-class FlipCompare(ast.NodeTransformer):
-    """a < b -> b > a ; a <= b -> b >= a ; a == b -> b == a (single comparisons)"""
-    MAP = {ast.Lt: ast.Gt, ast.Gt: ast.Lt, ast.LtE: ast.GtE, ast.GtE: ast.LtE, ast.Eq: ast.Eq, ast.NotEq: ast.NotEq}
-
-    def visit_Compare(self, node):
-        self.generic_visit(node)
-        if len(node.ops) == 1 and type(node.ops[0]) in self.MAP:
-            return ast.copy_location(ast.Compare(left=node.comparators[0], ops=[self.MAP[type(node.ops[0])]()], comparators=[node.left]), node)
-        return node
-
-
-class SwapIf(ast.NodeTransformer):
-    """if c: A else: B  ->  if not c: B else: A   (only plain if/else, no elif)"""
-
-    def visit_If(self, node):
-        self.generic_visit(node)
-        if node.orelse and not (len(node.orelse) == 1 and isinstance(node.orelse[0], ast.If)):
-            return ast.copy_location(ast.If(test=ast.UnaryOp(op=ast.Not(), operand=node.test), body=node.orelse, orelse=node.body), node)
-        return node
-
-
-TRANSFORMS = {'rename': [RenameLocals], 'reformat': [], 'flipcmp': [FlipCompare], 'swapif': [SwapIf], 'all': [RenameLocals, FlipCompare, SwapIf]}
+sys.path.insert(0, '/verif')
+from pkstatic.benign import TRANSFORMS  # noqa
 
 
 def main():
